@@ -35,8 +35,36 @@ def gen_job_replication(rng, allow_gpu=True):
     return {"tasks": tasks, "ext": ext, "family": "replication"}
 
 
-def gen_job(rng, maxn=8, allow_gpu=True):
+def gen_job_wide(rng):
+    """wide family: 33-45 source tasks that are all computable in the first round, joined by a shallow tree (joins of 4-9
+    sources, one sink per component) into one or two components; with gen_cluster's 8-15 hosts x 3-4 workers a single
+    assign() round hands out 32 or more commands (a per-round cap / any bookkeeping that is only right for short rounds)"""
+    nsrc = rng.randint(33, 45)
+    tasks = [{"nOut": 2 if rng.random() < 0.1 else 1, "gpu": False, "params": []} for _ in range(nsrc)]
+    srcs = list(range(nsrc))
+    rng.shuffle(srcs)
+    cut = nsrc if rng.random() < 0.7 else rng.randint(nsrc // 2 - 3, nsrc // 2 + 3)
+    for group in (srcs[:cut], srcs[cut:]):
+        joins = []
+        i = 0
+        while i < len(group):
+            m = rng.randint(4, 9)
+            piece = sorted(group[i:i + m])
+            i += m
+            tasks.append({"nOut": 1, "gpu": False, "params": [[t, rng.randrange(tasks[t]["nOut"])] for t in piece]})
+            joins.append(len(tasks) - 1)
+        if len(joins) > 1:
+            tasks.append({"nOut": 1, "gpu": False, "params": [[t, 0] for t in joins]})
+    allds = [[t, k] for t in range(len(tasks)) for k in range(tasks[t]["nOut"])]
+    p = rng.choice([0.0, 0.05, 0.2])
+    ext = [d for d in allds if rng.random() < p or (d[0] >= nsrc and rng.random() < 0.5)]
+    return {"tasks": tasks, "ext": ext, "family": "wide"}
+
+
+def gen_job(rng, maxn=8, allow_gpu=True, wide=0.0):
     """spec = {"tasks":[{"nOut","gpu","params":[[t,k],...]}], "ext":[[t,k],...]} ; tasks are topologically numbered"""
+    if wide and rng.random() < wide:
+        return gen_job_wide(rng)
     if maxn >= 6 and rng.random() < 0.3:
         return gen_job_replication(rng, allow_gpu)
     if maxn >= 6 and rng.random() < 0.12:
@@ -68,6 +96,10 @@ def gen_job(rng, maxn=8, allow_gpu=True):
 
 
 def gen_cluster(rng, spec, maxh=3, maxw=3):
+    if spec.get("family") == "wide":
+        # >= 32 workers, few per host (the base model's purge step is expensive for many workers per host)
+        H, W = (rng.randint(11, 15), 3) if rng.random() < 0.6 else (rng.randint(8, 12), 4)
+        return [[h, w, rng.random() < 0.2] for h in range(H) for w in range(W)]
     H = rng.randint(1, maxh)
     W = rng.randint(1, maxw)
     if rng.random() < (0.75 if spec.get("family") == "replication" else 0.3):
@@ -170,6 +202,47 @@ class WaitWithNothingOutstanding(Exception):
     pass
 
 
+class StrictVal:
+    """A payload value that refuses to be COMPARED (half of the runs deliver requested values wrapped in it): the values of
+    a job are arbitrary Python objects - NumPy arrays, xarray objects - whose `==`/`!=` are element-wise or raise, so a
+    controller that looks at a delivered value with anything but `is` (== / != / `in` over a list of values) is wrong for
+    them. `==`/`!=` with anything that is not a StrictVal raise TypeError, which surfaces as a controller exception (C03
+    controller-exception, C01 run-did-not-return-requested-outputs). repr/str give the underlying term, so the abstraction
+    of the State and the comparison with the model's values are unchanged. Picklable by reference (module level)."""
+    __slots__ = ("v",)
+
+    def __init__(self, v):
+        self.v = v
+
+    def __repr__(self):
+        return self.v
+
+    __str__ = __repr__
+
+    def __hash__(self):
+        return hash(("StrictVal", self.v))
+
+    def __eq__(self, other):
+        if isinstance(other, StrictVal):
+            return self.v == other.v
+        raise TypeError("StrictVal: a delivered value was compared with == to " + type(other).__name__)
+
+    def __ne__(self, other):
+        if isinstance(other, StrictVal):
+            return self.v != other.v
+        raise TypeError("StrictVal: a delivered value was compared with != to " + type(other).__name__)
+
+    def __bool__(self):
+        raise TypeError("StrictVal: the truth value of a delivered value was taken")
+
+    def __reduce__(self):
+        return (StrictVal, (self.v,))
+
+
+def unwrap(v):
+    return v.v if isinstance(v, StrictVal) else v
+
+
 class Livelock(BaseException):
     pass
 
@@ -177,7 +250,7 @@ class Livelock(BaseException):
 class SimBridge:
     """Abstract executors. Every scheduling choice comes from `rng`; `fifo` keeps events in production order."""
 
-    def __init__(self, spec, ws, rng, fifo, trace, none_output=None):
+    def __init__(self, spec, ws, rng, fifo, trace, none_output=None, strict=False):
         from cascade.executor.msg import DatasetPublished, DatasetTransmitPayload, DatasetTransmitPayloadHeader
         self.DP, self.DTP, self.DTPH = DatasetPublished, DatasetTransmitPayload, DatasetTransmitPayloadHeader
         self.spec, self.ws, self.rng, self.fifo, self.trace = spec, ws, rng, fifo, trace
@@ -198,6 +271,7 @@ class SimBridge:
         self.shutdowns = 0
         self.calls_since_wait = 0
         self.none_output = none_output
+        self.strict = strict                              # payload values travel wrapped in StrictVal
         self.gpu = {(w[0], w[1]): w[2] for w in ws}
         # non-atomic task bodies (Model/CtrlN.lean): a started body publishes its outputs one at a time, in index order,
         # as separate environment steps; `ran`/`produced` keep the base model's meaning (set when the body starts)
@@ -427,6 +501,8 @@ class SimBridge:
         val = e[3]
         if self.none_output is not None and [e[1], e[2]] == self.none_output:
             val = None
+        elif self.strict:
+            val = StrictVal(val)
         return self.DTP(self.DTPH("", 0, dsid([e[1], e[2]]), "cloudpickle.loads"), cloudpickle.dumps(val))
 
     def recv_events(self):
@@ -552,8 +628,10 @@ def run_case(spec, ws, seed, fifo, none_output=None, max_rounds=None, alarm_s=20
     rng = random.Random(seed)
     trace = [{"op": "init", "tasks": [{"nOut": t["nOut"], "gpu": t["gpu"], "inputs": inputs_of(t)} for t in spec["tasks"]],
               "ext": spec["ext"], "workers": ws}]
-    br = SimBridge(spec, ws, rng, fifo, trace, none_output)
-    res = {"trace": trace, "spec": spec, "workers": ws, "seed": seed, "fifo": fifo, "none_output": none_output}
+    # half of the runs (a function of the schedule seed; the schedule itself does not depend on it)
+    strict = random.Random(seed ^ 0x5F3759DF).random() < 0.5
+    br = SimBridge(spec, ws, rng, fifo, trace, none_output, strict=strict)
+    res = {"trace": trace, "spec": spec, "workers": ws, "seed": seed, "fifo": fifo, "none_output": none_output, "strict": strict}
     cur = {"asg": [], "state": None, "rounds": 0, "events": [], "heur": 0}
     import cascade.scheduler.assign as sassign
     bound = max_rounds or (40 * (len(spec["tasks"]) + sum(t["nOut"] for t in spec["tasks"])) + 60)
@@ -630,6 +708,8 @@ def run_case(spec, ws, seed, fifo, none_output=None, max_rounds=None, alarm_s=20
 
     def w_flush(bridge, state):
         st = cact.flush_queues(bridge, state)
+        if len(cur["asg"]) >= 32:
+            br.note("rounds_with_32_or_more_assignments")
         asg = [{"w": un_w(a.worker), "t": int(a.tasks[0][1:]), "ntasks": len(a.tasks),
                 "cands": [un_ds(p[0]) + [un_h(p[1])] for p in a.prep if p[1] != a.worker.host],
                 "orders": orders,
@@ -688,7 +768,7 @@ def run_case(spec, ws, seed, fifo, none_output=None, max_rounds=None, alarm_s=20
     try:
         pre = precompute(job)
         st = impl.run(job, br, pre, "tcp://gateway:1,job-7" if report else None)
-        res["outputs"] = {tuple(un_ds(ds)): v for ds, v in st.outputs.items()}
+        res["outputs"] = {tuple(un_ds(ds)): unwrap(v) for ds, v in st.outputs.items()}
         res["remaining"] = st.remaining
         trace.append({"op": "round", "asg": [], "final": True, "impl": {"finished": True}})
     except Livelock:
@@ -717,7 +797,7 @@ def run_case(spec, ws, seed, fifo, none_output=None, max_rounds=None, alarm_s=20
             try:
                 r = creport.deserialize(raw)
                 import cloudpickle
-                reps.append([r.job_id, r.current_status, [[un_ds(d), cloudpickle.loads(b)] for d, b in r.results]])
+                reps.append([r.job_id, r.current_status, [[un_ds(d), unwrap(cloudpickle.loads(b))] for d, b in r.results]])
             except Exception as e:
                 reps.append(["undecodable", repr(e)[:100], []])
         res["reports"] = reps
@@ -731,6 +811,7 @@ def run_case(spec, ws, seed, fifo, none_output=None, max_rounds=None, alarm_s=20
                     "transmits": sum(1 for x in _env_ops(trace) if x.get("io", [""])[0] == "transmit"),
                     "fetches": sum(1 for x in _env_ops(trace) if x.get("io", [""])[0] == "fetch"),
                     "purges": sum(1 for x in trace if x.get("op") == "round" for c in x.get("impl", {}).get("cmds", []) if c[0] == "purge"),
+                    "strict_values": br.strict, "family": spec.get("family"),
                     "atomic_bodies": br.atomic, "max_running": br.max_running,
                     "mid_steps": br.mid_steps, "notes": dict(br.notes),
                     # controller rounds that happened while some body was between two of its outputs
@@ -795,7 +876,7 @@ def oracle(res, fifo):
                 out.append(("C01", "wrong-value", [list(d), repr(got), None if none_valued else ref[d]]))
     if oc != "finished" and spec["ext"]:
         # C01: every dataset the caller asked for is delivered -- a run that never returns delivers nothing
-        out.append(("C01", "run-did-not-return-requested-outputs", oc))
+        out.append(("C01", "run-did-not-return-requested-outputs", oc + (": " + str(res.get("exception"))[:200] if oc == "exception" else "")))
     if res["shutdowns"] != 1:
         out.append(("C03", "shutdown-count", res["shutdowns"]))
     if res.get("report"):
